@@ -190,6 +190,18 @@ Proof.
   eapply Forall_impl; [|apply plain_dec]. intros c [Hc _]. exact Hc.
 Qed.
 
+Lemma last_ok_cons f x l : l <> [] -> last_ok f (x :: l) = last_ok f l.
+Proof. intros H. apply (last_ok_app f [x] l H). Qed.
+Lemma last_ok_print_dec n : last_ok is_space (print_dec n) = true.
+Proof. apply (last_ok_dec []). Qed.
+Ltac ne_tac :=
+  first [ discriminate | apply print_dec_nonempty
+        | (let HH := fresh in intros HH; apply app_eq_nil in HH; destruct HH as [_ HH];
+           first [discriminate | exact (print_dec_nonempty _ HH)]) ].
+Ltac last_dec :=
+  cbn [app]; repeat first [ rewrite last_ok_cons by ne_tac | rewrite last_ok_app by ne_tac ];
+  apply last_ok_print_dec.
+
 Definition wf_text (f : fmt) : Prop :=
   match f with
   | FGeneric _ m fm _ => last_ok is_space m = true /\ Forall wf_kv fm
@@ -248,18 +260,18 @@ Proof.
     constructor; [split; cbn [fst snd]; [lit_key|apply wf_val_plain; apply plain_hex; exact Hb]|constructor].
   - (* Opus *) cbn in *. destruct Hwf as (Hd & _). injection Hr as <-. injection Hf as <-.
     split; [apply dyn_lt256; exact Hd|split].
-    + destruct (ch <=? 2); [reflexivity|apply last_ok_dec].
+    + destruct (ch <=? 2); [reflexivity|last_dec].
     + destruct (ch <=? 2); [destruct (ch =? 2); repeat (constructor; [kv_lit|]); constructor|].
       destruct (ch =? 3), (ch =? 4), (ch =? 5), (ch =? 6), (ch =? 7); unfold opus_multi; repeat (constructor; [kv_lit|]); constructor.
   - (* Vorbis *) destruct f as [pt r ch conf]; cbn in *. destruct Hwf as (Hd & _ & _ & Hb). injection Hr as <-. injection Hf as <-.
     split; [apply dyn_lt256; exact Hd|split].
-    + rewrite !app_assoc. apply last_ok_dec.
+    + last_dec.
     + destruct conf; [|contradiction]. constructor; [split; cbn [fst snd]; [lit_key|apply wf_val_plain, plain_b64; exact Hb]|constructor].
   - (* MP4A *) destruct f as [pt plid cfg sl il dl]; cbn in *. destruct Hwf as (Hd & _ & Hc & _).
     destruct cfg as [c|]; [|contradiction]. destruct (a_enc c) as [enc|]; [|contradiction]. destruct Hc as [Hb _].
     injection Hr as <-. injection Hf as <-.
     split; [apply dyn_lt256; exact Hd|split].
-    + rewrite !app_assoc. apply last_ok_dec.
+    + last_dec.
     + constructor; [kv_lit|]. constructor; [kv_lit|]. constructor; [kv_dec|].
       repeat (apply Forall_app; split); try (apply nz_kv_wf; lit_key).
       constructor; [split; cbn [fst snd]; [lit_key|apply wf_val_plain; apply plain_hex; exact Hb]|constructor].
@@ -270,24 +282,24 @@ Proof.
       constructor; [kv_dec|]. apply Forall_app; split; [apply opt_kv_wf; lit_key|].
       constructor; [kv_lit|]. destruct sbr as [[|]|]; repeat (constructor; [kv_lit|]); constructor.
     + destruct sm as [c|]; [|contradiction]. destruct (s_enc c) as [enc|]; [|contradiction]. destruct Hc as (Hb & _).
-      injection Hr as <-. injection Hf as <-. split; [rewrite !app_assoc; apply last_ok_dec|].
+      injection Hr as <-. injection Hf as <-. split; [last_dec|].
       constructor; [kv_dec|]. apply Forall_app; split; [apply opt_kv_wf; lit_key|].
       constructor; [kv_lit|]. constructor; [split; cbn [fst snd]; [lit_key|apply wf_val_plain; apply plain_hex; exact Hb]|].
       constructor; [kv_dec|]. destruct sbr as [[|]|]; repeat (constructor; [kv_lit|]); constructor.
   - (* AC3 *) cbn in *. destruct Hwf as (Hd & _). injection Hr as <-. injection Hf as <-.
-    split; [apply dyn_lt256; exact Hd|split; [rewrite !app_assoc; apply last_ok_dec|constructor]].
+    split; [apply dyn_lt256; exact Hd|split; [last_dec|constructor]].
   - (* Speex *) destruct f as [pt r vbr]; cbn in *. destruct Hwf as (Hd & _). injection Hr as <-. injection Hf as <-.
-    split; [apply dyn_lt256; exact Hd|split; [apply last_ok_dec|]].
+    split; [apply dyn_lt256; exact Hd|split; [last_dec|]].
     destruct vbr as [[|]|]; repeat (constructor; [kv_lit|]); constructor.
   - (* G726 *) cbn in *. destruct Hwf as (Hd & _). injection Hr as <-. injection Hf as <-.
     split; [apply dyn_lt256; exact Hd|split; [|constructor]].
-    rewrite !app_assoc. rewrite last_ok_app by discriminate. reflexivity.
+    cbn [app]; repeat first [ rewrite last_ok_cons by ne_tac | rewrite last_ok_app by ne_tac ]. reflexivity.
   - (* G711 *) cbn in *. injection Hr as <-. injection Hf as <-.
     split; [destruct Hwf as [(-> & _)|[(-> & _)|(Hd & _)]]; [lia|lia|apply dyn_lt256; exact Hd]|split; [|constructor]].
-    destruct (ch =? 1); [rewrite app_nil_r|]; rewrite !app_assoc; apply last_ok_dec.
+    destruct (ch =? 1); [rewrite app_nil_r|]; last_dec.
   - (* LPCM *) cbn in *. injection Hr as <-. injection Hf as <-.
     split; [destruct Hwf as [(-> & _)|[(-> & _)|(Hd & _)]]; [lia|lia|apply dyn_lt256; exact Hd]|split; [|constructor]].
-    rewrite !app_assoc. apply last_ok_dec.
+    last_dec.
   - (* KLV *) cbn in *. injection Hr as <-. injection Hf as <-.
     split; [apply dyn_lt256; exact Hwf|split; [reflexivity|constructor]].
   - cbn in *. injection Hr as <-. injection Hf as <-. split; [lia|split; [reflexivity|constructor]].
